@@ -183,13 +183,53 @@ def parse_enums(src, feats):
     return out
 
 
+def parse_structs(src, feats):
+    """-> dict struct name -> ordered list of (field, type) (cfg-stripped); tuple structs get numeric names"""
+    src = _strip_comments(src)
+    out = {}
+    for m in re.finditer(r"((?:#\[[^\]]*\]\s*)*)(?:pub(?:\([a-z]+\))?\s+)?struct\s+([A-Za-z_][A-Za-z0-9_]*)\s*(?:<[^>{(]*>)?\s*(\{|\()", src):
+        attrs, name, br = m.group(1), m.group(2), m.group(3)
+        ok = True
+        for a in re.finditer(r"#\[cfg\((.*?)\)\]\s", attrs + " ", flags=re.S):
+            ok = ok and eval_cfg(a.group(1), feats)
+        if not ok:
+            continue
+        if br == "(":
+            continue
+        body, _ = _body(src, m.end() - 1)
+        fields = []
+        for item in _split(body):
+            item = item.strip()
+            keep = True
+            while item.startswith("#["):
+                d = 0
+                for j in range(1, len(item)):
+                    if item[j] == "[": d += 1
+                    elif item[j] == "]":
+                        d -= 1
+                        if d == 0: break
+                cm = re.match(r"cfg\((.*)\)$", item[2:j].strip(), flags=re.S)
+                if cm:
+                    keep = keep and eval_cfg(cm.group(1), feats)
+                item = item[j + 1:].strip()
+            fm = re.match(r"^(?:pub(?:\([a-z]+\))?\s+)?([a-z_][A-Za-z0-9_]*)\s*:\s*(.*)$", item, flags=re.S)
+            if fm and keep:
+                fields.append((fm.group(1), " ".join(fm.group(2).split())))
+        out.setdefault(name, fields)
+    return out
+
+
 class EnumTable:
     def __init__(self, tree, featureset):
         feats_sty = set(common.FEATURESETS[featureset]) | {"editorconfig"}
         self.enums = {}
+        self.structs = {}
         for p in sorted(glob.glob(os.path.join(tree, "src", "**", "*.rs"), recursive=True)):
-            for k, v in parse_enums(open(p).read(), feats_sty | _implied(feats_sty)).items():
+            txt = open(p).read()
+            for k, v in parse_enums(txt, feats_sty | _implied(feats_sty)).items():
                 self.enums.setdefault(k, v)
+            for k, v in parse_structs(txt, feats_sty | _implied(feats_sty)).items():
+                self.structs.setdefault(k, v)
         fm = sorted(glob.glob(os.path.expanduser("~/.cargo/registry/src/*/full_moon-1.2.0")))
         if not fm:
             raise common.Inconclusive("full_moon source not found")
@@ -213,6 +253,15 @@ class EnumTable:
         self.enums.setdefault("DiffOp", [("Equal", "named", [], None), ("Delete", "named", [], None), ("Insert", "named", [], None),
                                          ("Replace", "named", [], None)])
         self.enums.setdefault("ChangeTag", [("Equal", "unit", [], "0"), ("Delete", "unit", [], "1"), ("Insert", "unit", [], "2")])
+
+    def field_index(self, struct, field):
+        fs = self.structs.get(struct)
+        if fs is None:
+            return None
+        for i, (n, _) in enumerate(fs):
+            if n == field:
+                return i
+        return None
 
     def variants(self, ty):
         return self.enums.get(enum_key(ty))
